@@ -176,8 +176,15 @@ func runStoreHistories(r *vh.Run, rng *vh.RNG, dir string) {
 	for i := 0; i < trees; i++ {
 		trng := rng.Fork()
 		net := chainx.RandomNet(trng)
-		t := chainx.GenTree(trng, net, chainx.GenCfg{Main: 8 + trng.Intn(10), Forks: 1 + trng.Intn(3), MaxBranch: 3 + trng.Intn(8),
-			Kinds: chainx.AllKinds(), TxPerBlk: 3, Corrupt: trng.Intn(2), Extend: 2})
+		kinds := chainx.AllKinds()
+		if i%2 == 0 {
+			// contract-heavy histories in the v1 regime: the FileContracts bucket outgrows bbolt's
+			// inline-bucket limit, so values handed out by Get live in the read-only mmap
+			net = chainx.NewNet(trng, 1000, 2000, 2)
+			kinds = append(append([]string{"v1pay"}, chainx.ContractKinds...), chainx.ContractKinds...)
+		}
+		t := chainx.GenTree(trng, net, chainx.GenCfg{Main: 10 + trng.Intn(10), Forks: 1 + trng.Intn(3), MaxBranch: 3 + trng.Intn(8),
+			Kinds: kinds, TxPerBlk: 3, Corrupt: trng.Intn(2), Extend: 2})
 		runStoreHistory(r, fmt.Sprintf("store%d", i), t, t.Schedule(trng), dir, i)
 	}
 }
